@@ -464,7 +464,7 @@ Proof.
     replace (mtype m =? ENPASSANT) with false by (destruct Hmt as [-> | ->]; reflexivity).
     replace (mtype m =? CASTLING) with false by (destruct Hmt as [-> | ->]; reflexivity).
     rewrite Hb'. rewrite occ_of_put by assumption. apply N.eqb_neq in Hpc'nz. rewrite Hpc'nz.
-    rewrite occ_of_put by assumption. reflexivity. }
+    rewrite occ_of_put by assumption. change (0 =? 0) with true. cbv iota. reflexivity. }
   assert (Hgt : gc_to m = t).
   { unfold gc_to. replace (mtype m =? CASTLING) with false by (destruct Hmt as [-> | ->]; reflexivity). reflexivity. }
   (* the opponent's king *)
@@ -495,9 +495,11 @@ Proof.
     rewrite (att_from_piece b' t (flip us) K KING HKat') in Hn by (unfold KING; lia).
     change (type_clause b' t (flip us) K KING) with (existsb (N.eqb t) (king_targets K)) in Hn.
     now rewrite king_sym. }
-  rewrite (gives_check_eval p m K) by (try assumption; try (now apply valid_codes_ok);
-    try (destruct Hkind as [[-> ->]|[-> [_ ?]]]; unfold NORMAL, PROMOTION; lia);
-    try (intros E; destruct Hmt as [E'|E']; rewrite E' in E; discriminate)).
+  assert (Hc1 : mtype m < 4) by (destruct Hmt as [-> | ->]; unfold NORMAL, PROMOTION; lia).
+  assert (Hc2 : 3 <= mprom m <= 6) by (destruct Hkind as [[_ ->]|[_ [_ ?]]]; lia).
+  assert (Hc3 : mtype m = ENPASSANT -> 8 <= mto m < 56)
+    by (intros E; destruct Hmt as [E'|E']; rewrite E' in E; discriminate).
+  rewrite (gives_check_eval p m K Hl (valid_codes_ok _ Hv) Hs HKe HK Hf Ht Hc1 Hc2 Hty1 Hc3).
   f_equal. rewrite gives_check_unfold by exact Hs. fold b' us. rewrite HK'. rewrite Hgt. fold ty.
   apply (check_core b b' us K Hs HK Hno t ty (gc_occ p m) [f; t]); try assumption.
   - rewrite Hat', N.eqb_refl. exact Hpc'.
@@ -514,4 +516,133 @@ Proof.
       exfalso. destruct Htgt as [H0|[_ [H1 _]]].
       * rewrite H0 in Hpa. unfold mk_piece in Hpa. pose proof (slider_range X HX). lia.
       * rewrite Hpa in H1. destruct (mk_piece_parts us X) as [Hc _]; [now apply slider_range|]. now rewrite Hc in H1.
+Qed.
+
+(** ** en passant *)
+Lemma ep_square_check :
+  forallb (fun c => forallb (fun f => forallb (fun t =>
+     mk_sq (file_of t) (rank_of f) =? (if c =? WHITE then t - 8 else t + 8)) (pawn_attack_targets c f)) squares64)
+     [0; 1] = true.
+Proof. vm_compute. reflexivity. Qed.
+
+Lemma ep_square us f t : us < 2 -> f < 64 -> In t (pawn_attack_targets us f) ->
+  mk_sq (file_of t) (rank_of f) = ep_victim us t.
+Proof.
+  intros Hus Hf Ht. pose proof ep_square_check as H. rewrite forallb_forall in H.
+  assert (Hin : In us [0; 1]) by (cbn; lia). specialize (H us Hin).
+  pose proof (forall_squares _ H f Hf) as H'. cbv beta in H'. rewrite forallb_forall in H'.
+  specialize (H' t Ht). now apply N.eqb_eq in H'.
+Qed.
+
+Lemma legal_ep_facts p : legal_pos p = true -> ep p <> 64 ->
+  8 <= ep p < 56 /\ at_ (brd p) (ep p) = 0 /\
+  at_ (brd p) (ep_victim (stm p) (ep p)) = mk_piece (flip (stm p)) PAWN.
+Proof.
+  intros H Hne. pose proof (legal_pos_wf p H) as [_ [_ Hr]]. destruct Hr as [Hr|Hr]; [contradiction|].
+  apply legal_pos_inv in H as (_ & _ & _ & _ & Hstm & _ & _ & _ & _ & He).
+  unfold ep_ok in He. apply N.eqb_neq in Hne. rewrite Hne in He.
+  apply andb_true_iff in He as [He _]. apply andb_true_iff in He as [He H3]. apply andb_true_iff in He as [_ H2].
+  unfold piece_at in *. apply N.eqb_eq in H2. repeat split; try lia; try exact H2.
+  assert (Hep : ep p < 64) by lia. unfold ep_victim.
+  assert (stm p = 0 \/ stm p = 1) as [E | E] by lia; rewrite E in *.
+  - change (fwd (flip 0)) with DS in H3. pose proof (step_south (ep p) Hep) as Hs.
+    replace (8 <=? ep p) with true in Hs by (symmetry; apply N.leb_le; lia).
+    destruct (step DS (ep p)) as [v|]; [|discriminate]. cbn [opt64] in Hs. subst v.
+    now apply N.eqb_eq in H3.
+  - change (fwd (flip 1)) with DN in H3. pose proof (step_north (ep p) Hep) as Hs.
+    replace (ep p <? 56) with true in Hs by (symmetry; apply N.ltb_lt; lia).
+    destruct (step DN (ep p)) as [v|]; [|discriminate]. cbn [opt64] in Hs. subst v.
+    now apply N.eqb_eq in H3.
+Qed.
+
+Lemma make_brd_ep p m : mtype m = ENPASSANT ->
+  brd (make p m) =
+  put (put (put (brd p) (mfrom m) 0) (mto m) (at_ (brd p) (mfrom m)))
+      (mk_sq (file_of (mto m)) (rank_of (mfrom m))) 0.
+Proof. intros H. unfold make. cbn [brd]. rewrite H. reflexivity. Qed.
+
+Theorem gives_check_ep p m K : legal_pos p = true -> lfacts p K ->
+  mtype m = ENPASSANT -> mprom m = 3 -> mfrom m < 64 -> mto m = ep p -> mto m < 64 ->
+  at_ (brd p) (mfrom m) = mk_piece (stm p) PAWN -> at_ (brd p) (mto m) = 0 ->
+  In (mto m) (pawn_attack_targets (stm p) (mfrom m)) ->
+  gives_check_impl (view_of_spec p) (code m) = Some (gives_check p m).
+Proof.
+  intros Hlp [Hl Hv Hs HKe HK HKat HKu [Hok1 Hok2] Hou Hno] Hmt Hpr Hf Hte Ht Hpf Hpt Hin.
+  assert (Hne : ep p <> 64) by (rewrite <- Hte; lia).
+  destruct (legal_ep_facts p Hlp Hne) as (Hr & _ & Hvic). rewrite <- Hte in Hr, Hvic.
+  set (b := brd p) in *. set (us := stm p) in *. set (f := mfrom m) in *. set (t := mto m) in *.
+  set (v := ep_victim us t) in *.
+  assert (Hvlt : v < 64) by (unfold v, ep_victim; destruct (us =? WHITE); lia).
+  assert (Hvt : v <> t) by (unfold v, ep_victim; destruct (us =? WHITE); lia).
+  assert (Hft : f <> t) by (intros E; rewrite E in Hpf; rewrite Hpf in Hpt; unfold mk_piece, PAWN in Hpt; lia).
+  assert (Hvf : v <> f).
+  { intros E. rewrite E in Hvic. rewrite Hpf in Hvic.
+    assert (colour_of (mk_piece us PAWN) = colour_of (mk_piece (flip us) PAWN)) by now rewrite Hvic.
+    destruct (mk_piece_parts us PAWN) as [Hc _]; [unfold PAWN; lia|].
+    destruct (mk_piece_parts (flip us) PAWN) as [Hc' _]; [unfold PAWN; lia|].
+    rewrite Hc, Hc' in H. symmetry in H. now apply flip_neq in H. }
+  assert (Hb' : brd (make p m) = put (put (put b f 0) t (mk_piece us PAWN)) v 0).
+  { rewrite make_brd_ep by exact Hmt. fold b f t. rewrite Hpf. unfold v. now rewrite (ep_square us f t Hs Hf Hin). }
+  set (b' := brd (make p m)) in *.
+  assert (Hl1 : length (put b f 0) = 64%nat) by now rewrite put_length.
+  assert (Hl2 : length (put (put b f 0) t (mk_piece us PAWN)) = 64%nat) by now rewrite put_length.
+  assert (Hat' : forall a, at_ b' a = if a =? v then 0 else if a =? t then mk_piece us PAWN
+                                      else if a =? f then 0 else at_ b a).
+  { intros a. rewrite Hb'. rewrite at_put by assumption. destruct (a =? v); [reflexivity|].
+    rewrite at_put by assumption. destruct (a =? t); [reflexivity|]. now rewrite at_put. }
+  assert (Hsame : forall a, a < 64 -> ~ In a [f; t; v] -> at_ b' a = at_ b a).
+  { intros a _ Hn. rewrite Hat'. cbn [In] in Hn.
+    destruct (N.eqb_spec a v); [exfalso; apply Hn; auto|].
+    destruct (N.eqb_spec a t); [exfalso; apply Hn; auto|].
+    destruct (N.eqb_spec a f); [exfalso; apply Hn; auto|reflexivity]. }
+  assert (HKne : forall a pc, at_ b a = pc -> pc <> mk_piece (flip us) KING -> K <> a).
+  { intros a pc Ha Hn E. rewrite <- E in Ha. fold b in HKat. congruence. }
+  assert (HnK : ~ In K [f; t; v]).
+  { cbn [In]. intros [E|[E|[E|[]]]]; symmetry in E; revert E.
+    - apply (HKne f _ Hpf). unfold mk_piece, PAWN, KING. lia.
+    - apply (HKne t _ Hpt). unfold mk_piece, KING. lia.
+    - apply (HKne v _ Hvic). unfold mk_piece, PAWN, KING. lia. }
+  assert (Hocc : gc_occ p m = occ_of b').
+  { unfold gc_occ, gc_to, bit. fold b f t us. rewrite Hmt.
+    change (ENPASSANT =? ENPASSANT) with true. change (ENPASSANT =? CASTLING) with false. cbv iota.
+    fold v. rewrite Hb'. rewrite occ_of_put by assumption. change (0 =? 0) with true. cbv iota.
+    rewrite occ_of_put by assumption.
+    replace (mk_piece us PAWN =? 0) with false by (symmetry; apply N.eqb_neq; unfold mk_piece, PAWN; lia).
+    rewrite occ_of_put by assumption. change (0 =? 0) with true. cbv iota. reflexivity. }
+  assert (Hgt : gc_to m = t).
+  { unfold gc_to. rewrite Hmt. reflexivity. }
+  assert (Hpt' : gc_pt p m = PAWN).
+  { unfold gc_pt. rewrite Hmt. change (ENPASSANT =? PROMOTION) with false. change (ENPASSANT =? CASTLING) with false.
+    cbv iota. fold b f. rewrite Hpf. apply mk_piece_parts. unfold PAWN. lia. }
+  assert (HK' : king_sq b' (flip us) = K).
+  { apply (king_after b b' us K [f; t; v]); try assumption.
+    intros a [<-|[<-|[<-|[]]]]; rewrite Hat'.
+    - apply N.eqb_neq in Hft. rewrite Hft, N.eqb_refl.
+      replace (f =? v) with false by (symmetry; apply N.eqb_neq; congruence). now left.
+    - rewrite N.eqb_refl. replace (t =? v) with false by (symmetry; apply N.eqb_neq; congruence).
+      right. apply mk_piece_parts. unfold PAWN. lia.
+    - rewrite N.eqb_refl. now left. }
+  assert (Hc1 : mtype m < 4) by (rewrite Hmt; unfold ENPASSANT; lia).
+  assert (Hc2 : 3 <= mprom m <= 6) by lia.
+  assert (Hc3 : mtype m = ENPASSANT -> 8 <= mto m < 56) by (intros _; exact Hr).
+  assert (Hc4 : 1 <= gc_pt p m <= 6) by (rewrite Hpt'; unfold PAWN; lia).
+  rewrite (gives_check_eval p m K Hl (valid_codes_ok _ Hv) Hs HKe HK Hf Ht Hc1 Hc2 Hc4 Hc3).
+  f_equal. rewrite gives_check_unfold by exact Hs. fold b' us. rewrite HK', Hgt, Hpt'.
+  apply (check_core b b' us K Hs HK Hno t PAWN (gc_occ p m) [f; t; v]); try assumption.
+  - unfold PAWN. lia.
+  - rewrite Hat', N.eqb_refl. replace (t =? v) with false by (symmetry; apply N.eqb_neq; congruence). reflexivity.
+  - intros a [<-|[<-|[<-|[]]]] Hne'; rewrite Hat'.
+    + apply N.eqb_neq in Hft. rewrite Hft, N.eqb_refl.
+      replace (f =? v) with false by (symmetry; apply N.eqb_neq; congruence). reflexivity.
+    + contradiction.
+    + now rewrite N.eqb_refl.
+  - intros a X [<-|[<-|[<-|[]]]] HX Hpa Hsl; exfalso; pose proof (slider_range X HX) as HXr.
+    + rewrite Hpf in Hpa. unfold mk_piece, PAWN in Hpa. unfold slider, BISHOP, ROOK, QUEEN in HX. lia.
+    + rewrite Hpt in Hpa. unfold mk_piece in Hpa. lia.
+    + rewrite Hvic in Hpa.
+      assert (colour_of (mk_piece (flip us) PAWN) = colour_of (mk_piece us X)) by now rewrite Hpa.
+      destruct (mk_piece_parts us X) as [Hc _]; [lia|].
+      destruct (mk_piece_parts (flip us) PAWN) as [Hc' _]; [unfold PAWN; lia|].
+      rewrite Hc, Hc' in H. now apply flip_neq in H.
+  - intros E. discriminate.
 Qed.
